@@ -40,7 +40,9 @@ from .. import common as C
 from ..common import Corr, Violation, clist, cz
 from . import c09
 
-TRANSLATORS = ['hook_order', 'registrars_funs']
+TRANSLATORS = ['hook_order', 'registrars_funs',
+               # Props/C11System.v restates the end-to-end theorems over the regenerated code of the other components (System/PipelineCode.v)
+               'emitter_skeleton', 'relay_skeleton', 'callback_skeleton', 'pubsub_funs']
 PROP_FILES = ['Props/C11.v', 'Props/C11System.v']     # C11System.v: the pipeline end to end (System/Pipeline.v)
 
 TRUSTED_BASE = [
